@@ -476,9 +476,23 @@ func DumpTree(p *XProg) (*DTree, error) {
 // their argument terms, including the failing last one) equals the trace of LR
 // over the optimised tree as printed by Dump; every variable bound.
 func (cx *Checker) Trace(c *Case) []*core.Obl {
-	dom := &Domain{AllBound: true}
-	o := cx.newObl("trace", c)
-	cx.setMethod(o, "Eval")
+	return cx.traceRel(c, "trace", "Eval", &Domain{AllBound: true})
+}
+
+// TraceTry: the same relation for TryEval when every variable is bound AND available: the three-valued evaluator
+// then has nothing unknown to work around, so it must perform exactly the left-to-right short-circuit effects too
+// (a deciding and/or operand or if-branch value stops the later operands from being fetched / called).
+func (cx *Checker) TraceTry(c *Case) []*core.Obl {
+	return cx.traceRel(c, "trace.try", "TryEval", &Domain{AllBound: true, AllAvail: true})
+}
+
+func (cx *Checker) traceRel(c *Case, rel, method string, dom *Domain) []*core.Obl {
+	o := cx.newObl(rel, c)
+	cx.setMethod(o, method)
+	mfn := cx.m.Eval
+	if method == "TryEval" {
+		mfn = cx.m.TryEval
+	}
 	dt, err := DumpTree(c.Prog)
 	note := ""
 	if err != nil {
@@ -497,7 +511,7 @@ func (cx *Checker) Trace(c *Case) []*core.Obl {
 		note = "; NOTE: " + err.Error()
 	}
 	outs, trunc := EnumeratePaths(dom, cx.MaxPaths, func(r *Path) interface{} {
-		rr := cx.m.Exec(r, cx.m.Eval, c.Prog, nil)
+		rr := cx.m.Exec(r, mfn, c.Prog, nil)
 		out := &traceOut{rr: rr}
 		if !rr.Returned() {
 			return out
@@ -536,6 +550,9 @@ func (cx *Checker) Trace(c *Case) []*core.Obl {
 	default:
 		o.Detail += "; candidate difference: " + trunc2(first, 400)
 		cx.setQuery(o, dom, nil, nil, bads)
+	}
+	if method != "Eval" {
+		return []*core.Obl{o}
 	}
 	return append([]*core.Obl{o}, cx.SafetyObls(c, "Eval", dom, un)...)
 }
